@@ -79,9 +79,10 @@ func forall(lo, hi int, f func(int) bool) bool {
 //@   ensures result == ghostRunnerID(self)
 
 //@ define regInv(r) := r.runners != nil && r.operators != nil && r.liveness != nil && smInvOf(r.runners) && smInvOf(r.operators)
-//@ define smInvOf(sm) := len(sm.list) == len(sm.m) &&
-//@        forall(func(kk_ string) bool { return has(sm.m, kk_) ==> exists(0, len(sm.list), func(jj_ int) bool { return sm.list[jj_] == kk_ }) }) &&
-//@        forall(0, len(sm.list), func(ii_ int) bool { return has(sm.m, sm.list[ii_]) && forall(0, ii_, func(jj_ int) bool { return sm.list[jj_] != sm.list[ii_] }) })
+//@ define smInvOf(sm) := sm != nil && len(sm.list) == len(sm.m) &&
+//@        forall(func(kk_ string) bool { return has(sm.m, kk_) == exists(0, len(sm.list), func(jj_ int) bool { return sm.list[jj_] == kk_ }) }) &&
+//@        forall(0, len(sm.list), func(ii_ int) bool { return forall(0, ii_, func(jj_ int) bool { return sm.list[jj_] != sm.list[ii_] }) }) &&
+//@        (sm.isSorted ==> forall(0, len(sm.list), func(ii_ int) bool { return forall(0, ii_, func(jj_ int) bool { return sm.list[jj_] <= sm.list[ii_] }) }))
 
 //@ func Registry.HasOperator
 //@   property C15
